@@ -2,6 +2,8 @@ package sys
 
 import (
 	"fmt"
+	"sort"
+	"strings"
 	"sync"
 	"time"
 
@@ -132,7 +134,7 @@ func (h *Handler) OnConnClose(ctx *gortsplib.ServerHandlerOnConnCloseCtx) {
 	h.mu.Lock()
 	name := h.connNames[ctx.Conn]
 	h.mu.Unlock()
-	h.W.Log.Add(name, "conn.close", "%v", ctx.Error)
+	h.W.Log.Add(name, "conn.close", "%s", CanonErr(ctx.Error))
 }
 
 // OnSessionOpen implements ServerHandlerOnSessionOpen.
@@ -154,7 +156,7 @@ func (h *Handler) OnSessionClose(ctx *gortsplib.ServerHandlerOnSessionCloseCtx) 
 	h.mu.Lock()
 	name := h.sessNames[ctx.Session]
 	h.mu.Unlock()
-	h.W.Log.Add(name, "session.close", "%v", ctx.Error)
+	h.W.Log.Add(name, "session.close", "%s", CanonErr(ctx.Error))
 	h.mu.Lock()
 	st := h.pubStreams[ctx.Session]
 	delete(h.pubStreams, ctx.Session)
@@ -324,3 +326,24 @@ func (h *Handler) HadWriteError(ss *gortsplib.ServerSession) bool {
 }
 
 func errAuth() error { return liberrors.ErrServerAuth{} }
+
+// CanonErr renders an error for the canonical log. The library's "must be in state [a b c]" errors
+// list the allowed states in map order, which differs from run to run: the bracketed list is sorted.
+func CanonErr(err error) string {
+	if err == nil {
+		return "<nil>"
+	}
+	t := err.Error()
+	i := strings.Index(t, "must be in state [")
+	if i < 0 {
+		return t
+	}
+	i += len("must be in state [")
+	j := strings.IndexByte(t[i:], ']')
+	if j < 0 {
+		return t
+	}
+	f := strings.Fields(t[i : i+j])
+	sort.Strings(f)
+	return t[:i] + strings.Join(f, " ") + t[i+j:]
+}
